@@ -66,6 +66,14 @@ def run(ctx):
         ctx.unrecognised('R1', 'to_string: roles of the emitted pieces not recognised')
         return EXPLANATION
     sep1, sep2 = first_sep[0][1], second_sep[0][1]
+
+    # the two numbers written are the members themselves (casts aside), not something computed from them
+    def plain(t):
+        while t[0] in ('cast', 'conv'):
+            t = t[2]
+        return not any(x[0] == 'bin' and x[1] in ('+', '-', '*', '/', '%') for x in ex.subterms(t))
+    ctx.check(plain(aidv[0][1]) and plain(timesv[0][1]), 'R1', 'writer: the numbers written are aid_ and times_considered_ themselves', where(ts, aidv[0][3]),
+              'writes %s and %s' % (ex.pretty(aidv[0][1]), ex.pretty(timesv[0][1])), key='R1|to_string|values written')
     # guard of the first separator: not the first element
     g1 = first_sep[0][2]
     ok_g1 = any(a_[0] == 'bin' and a_[1] == '==' and 'begin' in repr(a_) and t_ is False for a_, t_ in g1)
